@@ -199,7 +199,8 @@ def oracle_docs(a):
 
     c, words, attrs = a["content"], a["words"], a.get("attrs", [])
     ns = a.get("ns")  # {"decls": [prefix...], "first": bool, "split": bool}
-    dtd_text = G.dtd_doc(c)
+    kinds = a.get("kinds") or {}
+    dtd_text = G.dtd_doc(c, kinds=kinds)
     plain = "  ".join(ATTR_VARIANTS[i][0] for i in attrs)
     if ns:
         decls = "  ".join(f'xmlns:{p} CDATA #FIXED "urn:{p}"' for p in ns["decls"])
@@ -238,7 +239,7 @@ def oracle_docs(a):
                 if ns:
                     lastp = ns["decls"][-1]
                     at += "".join(f' xmlns:{p}="urn:{p}"' for p in ns["decls"]) + f' {lastp}:title="T{len(w)}"'
-                doc = f"<r{at}>" + "".join(f"<{n}>v{i}</{n}>" for i, n in enumerate(w)) + "</r>"
+                doc = f"<r{at}>" + "".join(G.dtd_child_xml(n, i, kinds) for i, n in enumerate(w)) + "</r>"
                 root = etree.fromstring(doc.encode())
                 if not dtd.validate(root):
                     continue
@@ -250,8 +251,8 @@ def oracle_docs(a):
                 user_map = {p: f"urn:{p}" for p in ns["decls"]} if ns else None
                 out = XmlSerializer(context=ctx).render(obj, ns_map=user_map)
                 back = etree.fromstring(out.encode())
-                got = [(ch.tag, ch.text) for ch in back]
-                exp = [(n, f"v{i}") for i, n in enumerate(w)]
+                got = [(ch.tag, etree.tostring(ch, method="c14n", with_tail=False)) for ch in back]
+                exp = [(ch.tag, etree.tostring(ch, method="c14n", with_tail=False)) for ch in root]
                 if sorted(got) != sorted(exp):
                     return f"document {doc} re-serialised with other content ({opts}): {out}"
                 # attribute defaults and fixed values materialised as the DTD prescribes
@@ -309,7 +310,10 @@ def gen_docs(rng, tier):
         ns = None
         if rng.random() < 0.5:
             ns = {"decls": rng.sample(["dc", "ex", "p3"], rng.randint(1, 3)), "first": rng.random() < 0.5, "split": rng.random() < 0.5}
-        yield {"content": c, "words": [G.sample_word(rng, p) for _ in range(4)], "attrs": attrs, "ns": ns}
+        kinds = None
+        if rng.random() < 0.5:
+            kinds = {n: rng.choice(["pcdata", "empty", "any", "mixed", "elems"]) for n in set(G.dtd_names(c))}
+        yield {"content": c, "words": [G.sample_word(rng, p) for _ in range(4)], "attrs": attrs, "ns": ns, "kinds": kinds}
 
 
 def true_max(p, n):
@@ -395,11 +399,94 @@ def gen_e2e(rng, tier):
         yield {"content": c, "words": [G.sample_word(rng, p) for _ in range(4)], "attrs": attrs, "ns": ns}
 
 
+# ------------------------------------------------------------------ attribute declarations (Gen/DtdAttrs.lean)
+def gen_dtd_attr(rng, tier):
+    kinds = ["required", "implied", "fixed", "none"]
+    yield {"decls": [{"default": k, "value": v, "type": "CDATA"} for k in kinds for v in (None, "D")]}
+    for _ in range(n_cases(tier, 100, 2000)):
+        yield {"decls": [G.gen_dtd_attr_decl(rng, grammatical=False) for _ in range(rng.randint(1, 6))]}
+
+
+def impl_dtd_attr(a):
+    try:
+        return ok(G.real_dtd_attr(a["decls"]))
+    except Exception as e:  # noqa: BLE001
+        return err("LEAK:" + type(e).__name__)
+
+
+def gen_dtd_attr_fields(rng, tier):
+    kinds = ["required", "implied", "fixed", "none"]
+    for tp in ("CDATA", "NMTOKEN", "enum"):
+        yield {"decls": [{"default": k, "value": ("x" if k in ("fixed", "none") else None), "type": tp} for k in kinds]}
+    for _ in range(n_cases(tier, 60, 800)):
+        yield {"decls": [G.gen_dtd_attr_decl(rng) for _ in range(rng.randint(1, 6))]}
+
+
+def impl_dtd_attr_fields(a):
+    dtd = "<!ELEMENT r (#PCDATA)>\n" + G.dtd_attlist(a["decls"])
+    g = CG.run_pipeline({"s.dtd": dtd})
+    try:
+        if g.error is not None:
+            return err("GEN:" + type(g.error).__name__)
+        fs = {f.metadata.get("name", f.name): f for f in dataclasses.fields(g.classes()["R"])}
+        return ok([G.dataclass_field_shape(fs[f"d{i}"]) if f"d{i}" in fs else None for i in range(len(a["decls"]))])
+    finally:
+        g.close()
+
+
+def classify_dtd_attr(a, out):
+    ks = sorted({d["default"] + ("+v" if d["value"] is not None else "") for d in a["decls"]})
+    return ",".join(ks) + ("/err" if isinstance(out, dict) and "err" in out else "")
+
+
+# ------------------------------------------------------------------ element declarations (Gen/DtdElem.lean)
+def gen_dtd_elem(rng, tier):
+    decls = ["EMPTY", "ANY", "(#PCDATA)", "(#PCDATA|a)*", "(#PCDATA|a|b|c)*", "(a)", "(a,b)", "(a|b)+"]
+    for d in decls:
+        yield {"decl": d}
+    for c in contents(rng, n_cases(tier, 150, 3000)):
+        if valid_dtd(c):
+            body = G.dtd_text_of(c)
+            yield {"decl": body if body.startswith("(") else "(" + body + ")"}
+    names = ["a", "b", "c", "d"]
+    for _ in range(n_cases(tier, 30, 300)):
+        k = rng.randint(1, 4)
+        yield {"decl": "(#PCDATA|" + "|".join(rng.sample(names, k)) + ")*"}
+
+
+def _dtd_of_decl(decl):
+    return f"<!ELEMENT r {decl}>\n" + "".join(f"<!ELEMENT {n} (#PCDATA)>\n" for n in "abcdef")
+
+
+def gen_dtd_elem_args(rng, tier):
+    for a in gen_dtd_elem(rng, tier):
+        try:
+            args, _ = G.real_dtd_elem(_dtd_of_decl(a["decl"]))
+        except Exception:  # noqa: BLE001
+            args = {"type": "undefined", "content": None}
+        yield {**args, "decl": a["decl"]}
+
+
+def impl_dtd_elem(a):
+    try:
+        return ok(G.real_dtd_elem(_dtd_of_decl(a["decl"]))[1])
+    except AssertionError as e:
+        return err("SHAPE:" + str(e)[:60])
+    except Exception as e:  # noqa: BLE001
+        return err("LEAK:" + type(e).__name__)
+
+
 CORRS = [
     Corr("c16.e2e", gen_e2e, impl_e2e, spec=spec_e2e,
          describe="spec-level: DTD (content model, ATTLIST variants, xmlns declarations) -> real pipeline (default and compound fields) -> strict parse of valid documents -> re-serialise; expected: faithful"),
     Corr("gen.dtd_nsmap", gen_nsmap, impl_nsmap, nontrivial=lambda a, o: len(a["attrs"]) > 1,
          describe="DtdParser.build_ns_map on constructed attribute lists vs model"),
+    Corr("gen.dtd_attr", gen_dtd_attr, impl_dtd_attr, classify=classify_dtd_attr,
+         describe="DtdMapper.build_attribute / build_attribute_restrictions on constructed DtdAttribute objects (also ungrammatical keyword/value combinations) vs model"),
+    Corr("gen.dtd_attr_fields", gen_dtd_attr_fields, impl_dtd_attr_fields, classify=classify_dtd_attr,
+         describe="ATTLIST declarations (CDATA, NMTOKEN, enumerations x #REQUIRED/#IMPLIED/#FIXED/default): whole real pipeline + stand-in renderer, init and default of every field vs model"),
+    Corr("gen.dtd_elem", gen_dtd_elem_args, impl_dtd_elem, classify=lambda a, o: a["type"] + ("/err" if "err" in o else ""),
+         describe="<!ELEMENT r …> (EMPTY, ANY, (#PCDATA), mixed, element content): DtdParser + DtdMapper.build_class + FLATTEN handlers + ProcessMixedContentClass: kind and element fields of the class vs model"),
     Corr("gen.dtd_sites", gen_sites, impl_sites, canon=canon_sites, describe="DtdParser + DtdMapper.build_content vs model"),
     Corr("gen.dtd_occurs", gen_sites, impl_occurs, canon=canon_occ, describe="DtdMapper attrs through the three occurrence handlers vs model"),
     Corr("gen.dtd_fields", gen_fields, impl_fields, canon=canon_fields,
